@@ -216,12 +216,21 @@ def min_boundary(rep, F, rule='R-TABLE'):
     not under that comparison (or wrapping arithmetic) maps out-of-range negatives onto in-range values.  The comparison
     may be written as `d.cmp(&b)` or as `<` / `==` tests; b may be a promoted constant or a captured local"""
     n = 0
+    cands = []
     for fn in F.real_fns():
         m = re.search(r"ToPrimitive for BigDecimalRef(<'_>)?>::to_i(64|128)::\{closure#\d+\}$", fn.name)
-        if not m or not fn.is_closure:
-            continue
-        W = int(m.group(2))
-        key = re.sub(r'::\{closure#\d+\}$', '', fn.key) + ':min-boundary'
+        if m and fn.is_closure:
+            cands.append((fn, int(m.group(2)), 2, re.sub(r'::\{closure#\d+\}$', '', fn.key) + ':min-boundary'))
+        m2 = re.search(r"ToPrimitive for BigDecimalRef(<'_>)?>::to_i(64|128)$", fn.name)
+        if m2 and not fn.is_closure:
+            # the boundary decision handed over as a named function (`.and_then(helper)`)
+            for bid, t in fn.calls():
+                for a in t['args']:
+                    if a.get('k') == 'const' and a.get('fn_def') in F.fns:
+                        h = F.fns[a['fn_def']]
+                        if h.argc == 1 and re.match(r'^u(64|128)$', h.ty(1)) and re.search(r'Option<i(64|128)>', h.ty(0)):
+                            cands.append((h, int(m2.group(2)), 1, fn.key + ':min-boundary'))
+    for fn, W, dpar, key in cands:
         n += 1
         rep.add_functions([fn.name])
         wrap = [cdef(t) for b, t in fn.calls() if re.search(r'::(wrapping|overflowing|saturating|unchecked)_\w+$', cdef(t) or '')]
@@ -261,7 +270,7 @@ def min_boundary(rep, F, rule='R-TABLE'):
                 return _const_eval(caps[int(b[2])])
             return _const_eval(b)
 
-        d = TB.T('param', 2)
+        d = TB.T('param', dpar)
         probs, seen_rel, unknown_oc = [], set(), []
         want = {'lt': 'neg-cast', 'eq': 'min', 'gt': 'none'}
         for atoms, out in paths:
